@@ -56,16 +56,26 @@ def effects(F, b, depth=1):
 
 def normalise(eff, drop_fields=("timer",)):
     """field map for sibling comparison: `timer` (a reference in one sibling, a value in the other) is one role"""
+    PURE = ("deref", "deref_mut", "as_ref", "as_mut", "drop", "map", "and_then", "copied", "cloned", "is_some", "is_none",
+            "unwrap_or", "unwrap_or_default", "unwrap_or_else", "branch", "from_residual", "into_iter", "next")   # Option plumbing: no effect of its own
+    READS = ("elapsed", "instant", "now", "duration_since", "saturating_duration_since")          # the clock reads: the same whether direct or in a `.map(|s| ..)`
     out = set()
     for e in eff:
         if e[0] == "call":
             nm = e[1]
-            if nm in ("deref", "deref_mut", "as_ref", "as_mut", "drop"):
+            if nm in PURE:
                 continue
             if nm == "take" and e[2]:
                 out.add(("clear", e[2]))        # `x.take();` and `x = None;` are the same effect
                 continue
+            if nm in READS:
+                out.add(("read", nm))
+                continue
             out.add(("call", nm, e[2]))
+        elif e[0] == "call-in-closure":
+            if e[1] in PURE:
+                continue
+            out.add(("read", e[1]) if e[1] in READS else ("call", e[1], ()))
         else:
             out.add(e)
     return out
@@ -171,7 +181,9 @@ def run(ctx):
     for b in adds:
         names = {c.name for c in b.calls()}
         has_sum = any(c.name == "add" and "Duration" in (c.self_ty or "") for c in b.calls())
-        uod = "unwrap_or_default" in names
+        # the absent previous value counts as zero: unwrap_or_default / unwrap_or(ZERO) / a match whose None arm yields the default
+        uod = bool(names & {"unwrap_or_default", "unwrap_or", "default"}) or any("ZERO" in str(op_const(o) or "") for i in b.live_blocks() for s_ in b.stmts(i)
+                                                                                if s_["k"] == "assign" and s_["rv"]["k"] == "use" for o in [s_["rv"]["op"]])
         somes = any(s["k"] == "assign" and s["rv"]["k"] == "agg" and s["rv"].get("variant") == "Some" for i in b.live_blocks() for s in b.stmts(i))
         delegating = any(c.name == "add_assign" for c in b.calls())
         sums[b.path] = (has_sum, uod, somes, delegating)
